@@ -427,16 +427,22 @@ namespace Pistache::Http::Experimental
         }
         else
         {
-            Guard guard(timeoutsLock);
-            auto timerIt = timeouts.find(fd);
-            if (timerIt != std::end(timeouts))
+            std::shared_ptr<Connection> connection;
             {
-                auto connection = timerIt->second.lock();
-                if (connection)
+                Guard guard(timeoutsLock);
+                auto timerIt = timeouts.find(fd);
+                if (timerIt != std::end(timeouts))
                 {
-                    connection->handleTimeout();
-                    timeouts.erase(fd);
+                    connection = timerIt->second.lock();
+                    if (connection)
+                        timeouts.erase(timerIt);
                 }
+            }
+            // handleTimeout() hands the connection over to the next queued request, which
+            // takes timeoutsLock again when it is sent: call it with the lock released.
+            if (connection)
+            {
+                connection->handleTimeout();
             }
         }
     }
